@@ -1,12 +1,17 @@
 import Bng.Drv.Common
 import Bng.Model.Acct
 import Bng.Model.AcctSpec
+import Bng.Model.AcctNames
 /-
   bngdrv component `acct`: replays traces of the real radius.AccountingManager (driven by
   harness/cmd/acct against a real UDP RADIUS server) on the small-step model `Bng.Acct` and runs the
   C08 monitor `Bng.AcctSpec` on the implementation's observations.
 
-    new <maxRetries> <queueCap>   => ok
+    new <maxRetries> <queueCap> [ms] [ids=<hex>,<hex>,..] => ok
+        ids= : the concrete Acct-Session-Id byte strings the tags s1, s2, .. stand for (default: the tag itself);
+        two tags standing for one id = badop (the model's ids are the tags).  The driver needs the concrete ids for
+        one thing only: the NAME of each session file (`AcctNames.fileName`, printed in hex in every `dur=`), which the
+        harness reads from the real directory.
     start s1 i3 <ans> [!k]         => ok|exists acc=<records>
     ctr s1 <inhex> <outhex>        => ok
     interim s1 <ans> [!k]          => ok|skip acc=..
@@ -17,6 +22,8 @@ import Bng.Model.AcctSpec
     crash                          => ok dur=..
     restart <ans> [!k]             => ok acc=.. q=<rN,..|-> | alive
     final                          => sess=.. pend=.. queue=.. dur=..
+        dur=<files>|<pfile>, files = sN:<stopPending>:<cause>:<in>:<out>:<hex file name>; the implementation lists
+        anything else it finds under the scratch directory as x:<hex path> (the model never has such an entry)
     an op whose armed crash point fired => crashed@<marker> acc=.. ord=.. ab=.. dur=..
     an op on a dead instance       => dead
     <ans> letters: u = answered, d = not received, l/L = accepted by the server but the client sees a failure
@@ -39,6 +46,57 @@ open Bng Bng.Drv Bng.Acct
 structure St where
   model : Option Acct.State := none
   mon : AcctSpec.Mon := {}
+  /-- concrete ids of the tags s1.. (in order) given on the `new` line -/
+  ids : List (List UInt8) := []
+
+/-- the concrete id a tag stands for: the given one, else the tag's own text `s<k>` -/
+def idOfTag (ids : List (List UInt8)) (k : Nat) : List UInt8 :=
+  match (if k = 0 then none else ids[k - 1]?) with
+  | some b => b
+  | none => s!"s{k}".toUTF8.toList
+
+/-- byte-wise lexicographic `<` (the order of Go string comparison, hence of os.ReadDir) -/
+def bytesLt : List UInt8 → List UInt8 → Bool
+  | [], [] => false
+  | [], _ :: _ => true
+  | _ :: _, [] => false
+  | a :: as, b :: bs => a < b || (a == b && bytesLt as bs)
+
+/-- The translation between the trace's tags and the model's session ids.  The model's ids are opaque numbers with
+    ONE piece of structure: the recovery procedure walks the session files in the order of `os.ReadDir`, i.e. sorted
+    by file name, which the model renders as "sorted by id".  So the model id of tag s<k> is the RANK of its file name
+    (`AcctNames.fileName` of its concrete id) among the nine tags' file names; with the default ids `s1`..`s9` the rank
+    of s<k> is k. -/
+structure Names where
+  ids : List (List UInt8) := []
+
+def Names.file (n : Names) (k : Nat) : List UInt8 := AcctNames.fileName (idOfTag n.ids k)
+
+/-- tag number → model id -/
+def Names.toM (n : Names) (k : Nat) : Nat :=
+  if 1 ≤ k ∧ k ≤ 9 then
+    1 + ((List.range 9).filter fun j => bytesLt (n.file (j + 1)) (n.file k)).length
+  else k + 100
+
+/-- model id → tag number -/
+def Names.toT (n : Names) (m : Nat) : Nat :=
+  match (List.range 9).find? (fun j => n.toM (j + 1) == m) with
+  | some j => j + 1
+  | none => m - 100
+
+/-- hex of the file name of tag `k`'s recovery file -/
+def Names.hexFile (n : Names) (k : Nat) : String := bytesToHex (n.file k)
+
+/-- `ids=<hex>,..`: 1 to 9 ids of 1 to 64 bytes, and the ids of s1..s9 pairwise different -/
+def parseIds (t : String) : Option (List (List UInt8)) :=
+  let parts := t.splitOn ","
+  if parts.length < 1 ∨ parts.length > 9 then none else
+  match parts.mapM (fun h => if h == "-" then none else parseHexBytes h) with
+  | none => none
+  | some ids =>
+    if ids.any (fun b => b.length < 1 || b.length > 64) then none else
+    let all := (List.range 9).map fun i => idOfTag ids (i + 1)
+    if all.eraseDups.length = all.length then some ids else none
 
 /-! ### printing -/
 
@@ -48,22 +106,22 @@ def showOct (x : UInt64) : String :=
   | some g => s!"{toHex o.low.toNat}+{toHex g.toNat}"
   | none => toHex o.low.toNat
 
-def showRec (r : Rec) : String :=
+def showRec (nm : Names) (r : Rec) : String :=
   match r.kind with
-  | .start => s!"start/s{r.sid}/i{r.ident}"
-  | .interim => s!"interim/s{r.sid}/i{r.ident}/{showOct r.inOct}/{showOct r.outOct}"
-  | .stop => s!"stop/s{r.sid}/i{r.ident}/{r.cause}/{showOct r.inOct}/{showOct r.outOct}"
+  | .start => s!"start/s{nm.toT r.sid}/i{r.ident}"
+  | .interim => s!"interim/s{nm.toT r.sid}/i{r.ident}/{showOct r.inOct}/{showOct r.outOct}"
+  | .stop => s!"stop/s{nm.toT r.sid}/i{r.ident}/{r.cause}/{showOct r.inOct}/{showOct r.outOct}"
 
 def joinOr (xs : List String) : String := if xs.isEmpty then "-" else ",".intercalate xs
 
 /-- the records accepted since the log had `n` entries; `~` marks those the client got no acknowledgement for -/
-def showAcc (σ : Acct.State) (n : Nat) : String :=
-  joinOr (((σ.log.drop n).zip (σ.logAck.drop n)).map fun (r, b) => showRec r ++ (if b then "" else "~"))
+def showAcc (nm : Names) (σ : Acct.State) (n : Nat) : String :=
+  joinOr (((σ.log.drop n).zip (σ.logAck.drop n)).map fun (r, b) => showRec nm r ++ (if b then "" else "~"))
 
 def kindName : Kind → String
   | .start => "start" | .interim => "interim" | .stop => "stop"
 
-def showP (p : PRec) : String := s!"r{p.id}/{kindName p.req.kind}/s{p.req.sid}/{p.retries}"
+def showP (nm : Names) (p : PRec) : String := s!"r{p.id}/{kindName p.req.kind}/s{nm.toT p.req.sid}/{p.retries}"
 
 def sortBy {α : Type} (key : α → Nat) (xs : List α) : List α :=
   let ins := fun (x : α) (acc : List α) =>
@@ -73,17 +131,18 @@ def sortBy {α : Type} (key : α → Nat) (xs : List α) : List α :=
     go acc
   xs.foldr ins []
 
-def showDur (d : Dur) : String :=
-  let files := (sortBy (·.1) d.files).map fun (k, x) =>
-    s!"s{k}:{if x.stopPending then 1 else 0}:{x.stopCause}:{toHex x.lastIn.toNat}:{toHex x.lastOut.toNat}"
+def showDur (nm : Names) (d : Dur) : String :=
+  let files := (sortBy (·.1) (d.files.map fun (k, x) => (nm.toT k, x))).map fun (k, x) =>
+    s!"s{k}:{if x.stopPending then 1 else 0}:{x.stopCause}:{toHex x.lastIn.toNat}:{toHex x.lastOut.toNat}:{nm.hexFile k}"
   let pf := match d.pfile with
     | none => "-"
-    | some ps => "[" ++ ",".intercalate ((sortBy (·.id) ps).map showP) ++ "]"
+    | some ps => "[" ++ ",".intercalate ((sortBy (·.id) ps).map (showP nm)) ++ "]"
   joinOr files ++ "|" ++ pf
 
-def showVol (σ : Acct.State) : String :=
-  let ss := (sortBy (·.1) σ.vol.sessions).map fun (k, x) => s!"s{k}{if x.stopPending then "*" else ""}"
-  let ps := (sortBy (·.id) σ.vol.pending).map showP
+def showVol (nm : Names) (σ : Acct.State) : String :=
+  let ss := (sortBy (·.1) (σ.vol.sessions.map fun (k, x) => (nm.toT k, x))).map fun (k, x) =>
+    s!"s{k}{if x.stopPending then "*" else ""}"
+  let ps := (sortBy (·.id) σ.vol.pending).map (showP nm)
   let qs := σ.vol.queue.map fun i => s!"r{i}"
   s!"sess={joinOr ss} pend={joinOr ps} queue={joinOr qs}"
 
@@ -201,7 +260,7 @@ def parseDur (s : String) : List Nat × List Nat :=
 
 /-! ### monitor -/
 
-def clauseOf (σ : Acct.State) (name : String) (sid : Nat) : String :=
+def clauseOf (σ : Acct.State) (name : String) (sid : Nat) : String :=  -- sid: a MODEL id
   if name == "stop-before-start" && σ.startQueued.contains sid then "D24"
   else if name == "lost-stop" && σ.recVol.contains sid then "KF-acct-recovery-volatile"
   else if name == "lost-stop" && !σ.started.contains sid && σ.log.any (isStartOf sid) then "KF-acct-start-window"
@@ -234,9 +293,9 @@ def commonEvents (impl : String) : List AcctSpec.Ev :=
 inductive CallKind | plain | drain | restart
   deriving DecidableEq
 
-def showOrd (k : CallKind) (σ : Acct.State) : String :=
+def showOrd (nm : Names) (k : CallKind) (σ : Acct.State) : String :=
   match k with
-  | .drain => joinOr (σ.ord.map fun i => s!"s{i}")
+  | .drain => joinOr (σ.ord.map fun i => s!"s{nm.toT i}")
   | _ => "-"
 
 def resName : Res → String
@@ -256,8 +315,8 @@ partial def pfinish (σ : Acct.State) (answers : List Ans) (crashAt : Nat) : Acc
       let (a, rest) := nextAns f answers
       pfinish (Acct.step σ (.ptick a)) rest (crashAt - 1)
 
-def abSince (σ0 σ : Acct.State) : String :=
-  joinOr ((σ.abandoned.take (σ.abandoned.length - σ0.abandoned.length)).reverse.map fun s => s!"s{s}")
+def abSince (nm : Names) (σ0 σ : Acct.State) : String :=
+  joinOr ((σ.abandoned.take (σ.abandoned.length - σ0.abandoned.length)).reverse.map fun s => s!"s{nm.toT s}")
 
 /-- run the API call in progress to completion, no crash, nothing injected -/
 partial def afinish (σ : Acct.State) (answers : List Ans) : Acct.State :=
@@ -268,7 +327,7 @@ partial def afinish (σ : Acct.State) (answers : List Ans) : Acct.State :=
     afinish (Acct.step σ (.tick a)) rest
 
 /-- one injected processor step (or StopSession call), run to completion -/
-def runInj (σ : Acct.State) (inj : Inj) : Acct.State × Inj :=
+def runInj (nm : Names) (σ : Acct.State) (inj : Inj) : Acct.State × Inj :=
   match inj.stop with
   | some (sid, c) =>
     let σ1 := Acct.step σ (.stop sid c)
@@ -288,7 +347,7 @@ def runInj (σ : Acct.State) (inj : Inj) : Acct.State × Inj :=
   else
     let (σ2, _) := pfinish σ1 inj.ans 0
     let ord := joinOr (σ2.pord.map fun i => s!"r{i}")
-    (σ2, { inj with done := true, obs := s!"done|{ord}|{abSince σ σ2}" })
+    (σ2, { inj with done := true, obs := s!"done|{ord}|{abSince nm σ σ2}" })
 
 def tornApplies (f : Frame) (σ : Acct.State) : Bool :=
   match f with
@@ -299,7 +358,7 @@ def tornApplies (f : Frame) (σ : Acct.State) : Bool :=
 /-- run the API call in progress to completion: answers are consumed by the transmitting steps in order
     (missing = up); `crashAt = k`: crash in front of the k-th marker, or (torn) inside the k-th step's file
     write if it has one; injected processor steps run when their marker is reached for the first time -/
-partial def finish (σ : Acct.State) (answers : List Ans) (crashAt : Nat) (torn : Bool) (injs : List Inj) :
+partial def finish (nm : Names) (σ : Acct.State) (answers : List Ans) (crashAt : Nat) (torn : Bool) (injs : List Inj) :
     Acct.State × Option (Nat × Bool) × List Inj :=
   match σ.vol.pc with
   | none => (σ, none, injs)
@@ -310,14 +369,14 @@ partial def finish (σ : Acct.State) (answers : List Ans) (crashAt : Nat) (torn 
         | [] => (σ, pre.reverse)
         | i :: rest =>
           if i.mark = markerOf f && !i.done then
-            let (σ', i') := runInj σ i
+            let (σ', i') := runInj nm σ i
             (σ', pre.reverse ++ i' :: rest)
           else pick (i :: pre) rest
       let (σ, injs) := pick [] injs
       if crashAt = 1 && torn && tornApplies f σ then (Acct.step σ .crashTorn, some (markerOf f, true), injs)
       else
         let (a, rest) := nextAns f answers
-        finish (Acct.step σ (.tick a)) rest (crashAt - 1) torn injs
+        finish nm (Acct.step σ (.tick a)) rest (crashAt - 1) torn injs
 
 /-- a StopSession may be nested in a StartSession (markers 1, 2) or StopSession (markers 3-6) of the SAME session
     only (overlapping API calls on different sessions are not modelled); in an interim update (17) freely -/
@@ -331,27 +390,27 @@ def okStopInj (op : String) (s : Nat) (injs : List Inj) : Bool :=
 def showInj (injs : List Inj) : String :=
   String.join (injs.map fun i => s!" inj={i.mark}:{if i.done then i.obs else "-"}")
 
-def runCall (σ0 : Acct.State) (op : Op) (k : CallKind) (answers : List Ans) (crashAt : Nat) (torn : Bool)
-    (injs : List Inj) : Acct.State × String :=
+def runCall (nm : Names) (σ0 : Acct.State) (op : Op) (k : CallKind) (answers : List Ans) (crashAt : Nat)
+    (torn : Bool) (injs : List Inj) : Acct.State × String :=
   let σ1 := Acct.step σ0 op
   if σ1.res == .dead || σ1.res == .busy then (σ1, "dead")
   else if σ1.res == .alive then (σ1, "alive")
   else
-    let (σ2, crashed, injs) := finish σ1 answers crashAt torn injs
-    let acc := showAcc σ2 σ0.log.length
+    let (σ2, crashed, injs) := finish nm σ1 answers crashAt torn injs
+    let acc := showAcc nm σ2 σ0.log.length
     match crashed with
     | some (m, t) =>
-      (σ2, s!"crashed@{m}{if t then "~" else ""} acc={acc} ord={showOrd k σ2} ab=- dur={showDur σ2.dur}{showInj injs}")
+      (σ2, s!"crashed@{m}{if t then "~" else ""} acc={acc} ord={showOrd nm k σ2} ab=- dur={showDur nm σ2.dur}{showInj injs}")
     | none =>
       match k with
       | .plain => (σ2, s!"{resName σ2.res} acc={acc}{showInj injs}")
-      | .drain => (σ2, s!"ok acc={acc} ord={showOrd k σ2} dur={showDur σ2.dur}{showInj injs}")
+      | .drain => (σ2, s!"ok acc={acc} ord={showOrd nm k σ2} dur={showDur nm σ2.dur}{showInj injs}")
       | .restart => (σ2, s!"ok acc={acc} q={joinOr (σ2.vol.queue.map fun i => s!"r{i}")}")
 
 /-- an `interim` operation of the trace: the interim update is put in flight, the step injected at its marker
     (a processor step, or a complete StopSession) runs, then the update is sent and answered -/
-def runInterim (σ0 : Acct.State) (s : Nat) (answers : List Ans) (crashAt : Nat) (torn : Bool) (injs : List Inj) :
-    Acct.State × String :=
+def runInterim (nm : Names) (σ0 : Acct.State) (s : Nat) (answers : List Ans) (crashAt : Nat) (torn : Bool)
+    (injs : List Inj) : Acct.State × String :=
   let σ1 := Acct.step σ0 (.interim s)
   if σ1.ires == .dead || σ1.ires == .busy then (σ1, "dead")
   else
@@ -360,32 +419,33 @@ def runInterim (σ0 : Acct.State) (s : Nat) (answers : List Ans) (crashAt : Nat)
     | some f =>
       if crashAt = 1 && !torn then
         let σ2 := Acct.step σ1 .crash
-        (σ2, s!"crashed@{markerOf f} acc=- ord=- ab=- dur={showDur σ2.dur}{showInj injs}")
+        (σ2, s!"crashed@{markerOf f} acc=- ord=- ab=- dur={showDur nm σ2.dur}{showInj injs}")
       else
         let rec pick (pre : List Inj) : List Inj → Acct.State × List Inj
           | [] => (σ1, pre.reverse)
           | i :: rest =>
             if i.mark = markerOf f && !i.done then
-              let (σ', i') := runInj σ1 i
+              let (σ', i') := runInj nm σ1 i
               (σ', pre.reverse ++ i' :: rest)
             else pick (i :: pre) rest
         let (σ2, injs) := pick [] injs
         let (a, _) := nextAns f answers
         let σ3 := Acct.step σ2 (.itick a)
-        (σ3, s!"{resName σ1.ires} acc={showAcc σ3 σ0.log.length}{showInj injs}")
+        (σ3, s!"{resName σ1.ires} acc={showAcc nm σ3 σ0.log.length}{showInj injs}")
 
 /-- a `deq` / `retry` operation of the trace: the processor step alone -/
-def runProc (σ0 : Acct.State) (op : Op) (answers : List Ans) (crashAt : Nat) : Acct.State × String :=
+def runProc (nm : Names) (σ0 : Acct.State) (op : Op) (answers : List Ans) (crashAt : Nat) :
+    Acct.State × String :=
   let σ1 := Acct.step σ0 op
   if σ1.pres == .dead || σ1.pres == .busy then (σ1, "dead")
   else if σ1.pres == .empty then (σ1, "empty")
   else
     let (σ2, crashed) := pfinish σ1 answers crashAt
-    let acc := showAcc σ2 σ0.log.length
+    let acc := showAcc nm σ2 σ0.log.length
     let ord := joinOr (σ2.pord.map fun i => s!"r{i}")
     match crashed with
-    | some m => (σ2, s!"crashed@{m} acc={acc} ord={ord} ab={abSince σ0 σ2} dur={showDur σ2.dur}")
-    | none => (σ2, s!"done acc={acc} ord={ord} ab={abSince σ0 σ2}")
+    | some m => (σ2, s!"crashed@{m} acc={acc} ord={ord} ab={abSince nm σ0 σ2} dur={showDur nm σ2.dur}")
+    | none => (σ2, s!"done acc={acc} ord={ord} ab={abSince nm σ0 σ2}")
 
 /-- the retry orders the implementation reported for the injected steps: `inj=<marker>:done|r2,r1|-` -/
 def injOrders (impl : String) (injs : List Inj) : List Inj :=
@@ -407,22 +467,30 @@ def step (st : St) (toks0 : List String) (impl : String) : St × LineResult :=
   | some (toks, injs0) =>
   let injs := injOrders impl injs0
   match toks with
-  | "new" :: mr :: qc :: rest =>
-    match st.model, mr.toNat?, qc.toNat? with
-    | none, some mr, some qc =>
+  | "new" :: mr :: qc :: rest0 =>
+    -- a trailing `ids=..` token names the concrete session ids
+    let (rest, ids?) : List String × Option (List (List UInt8)) :=
+      match rest0.reverse with
+      | t :: r => if t.startsWith "ids=" then (r.reverse, parseIds (dropS t 4)) else (rest0, some [])
+      | [] => (rest0, some [])
+    match st.model, mr.toNat?, qc.toNat?, ids? with
+    | none, some mr, some qc, some ids =>
       let okRest : Bool := match rest with | [] => true | [t] => decide ((t.toNat?.getD 0) ≥ 1) | _ => false
       if mr ≥ 1 ∧ qc ≥ 1 ∧ crashAt = 0 ∧ injs.isEmpty ∧ okRest = true then
-        ({ model := some (Acct.init { maxRetries := mr, queueCap := qc }), mon := {} }, { modelObs := "ok" })
+        ({ model := some (Acct.init { maxRetries := mr, queueCap := qc }), mon := {}, ids := ids }, { modelObs := "ok" })
       else (st, { modelObs := "badop" })
-    | _, _, _ => (st, { modelObs := "badop" })
+    | _, _, _, _ => (st, { modelObs := "badop" })
   | _ =>
     match st.model with
     | none => (st, { modelObs := "badop" })
     | some σ =>
+      let nm : Names := { ids := st.ids }
+      -- the session of a nested StopSession: tag → model id
+      let injs := injs.map fun i => { i with stop := i.stop.map fun (t, c) => (nm.toM t, c) }
       let finishLine := fun (σ' : Acct.State) (obs : String) (pre post : List AcctSpec.Ev) =>
         let (mon', vs) := feed st.mon (pre ++ commonEvents impl ++ post)
-        (({ model := some σ', mon := mon' } : St),
-         ({ modelObs := obs, viols := vs.map fun (n, sid, d) => (n, clauseOf σ' n sid, d) } : LineResult))
+        (({ st with model := some σ', mon := mon' } : St),
+         ({ modelObs := obs, viols := vs.map fun (n, sid, d) => (n, clauseOf σ' n (nm.toM sid), d) } : LineResult))
       let bad : St × LineResult := (st, { modelObs := "badop" })
       let apiOnly := injs.isEmpty
       match toks with
@@ -430,18 +498,18 @@ def step (st : St) (toks0 : List String) (impl : String) : St × LineResult :=
         match parseTagged 's' s, parseHex i, parseHex o with
         | some s, some i, some o =>
           if crashAt ≠ 0 ∨ !apiOnly ∨ i ≥ 2 ^ 64 ∨ o ≥ 2 ^ 64 then bad else
-          finishLine (Acct.step σ (.ctr s (UInt64.ofNat i) (UInt64.ofNat o))) "ok"
+          finishLine (Acct.step σ (.ctr (nm.toM s) (UInt64.ofNat i) (UInt64.ofNat o))) "ok"
             [.ctr s (UInt64.ofNat i) (UInt64.ofNat o)] []
         | _, _, _ => bad
       | ["crash"] =>
         if crashAt ≠ 0 ∨ !apiOnly then bad else
         let σ' := Acct.step σ .crash
-        finishLine σ' s!"ok dur={showDur σ'.dur}" [.crash] []
+        finishLine σ' s!"ok dur={showDur nm σ'.dur}" [.crash] []
       | ["final"] =>
         if crashAt ≠ 0 ∨ !apiOnly then bad else
         -- the directory is judged at the end only when nothing volatile is left to deliver
         let quiet := (field impl "pend" == some "-") && (field impl "queue" == some "-")
-        let obs := s!"{showVol σ} dur={showDur σ.dur}"
+        let obs := s!"{showVol nm σ} dur={showDur nm σ.dur}"
         if quiet then finishLine σ obs [] []
         else (st, { modelObs := obs })
       | ["restart", a] =>
@@ -449,14 +517,14 @@ def step (st : St) (toks0 : List String) (impl : String) : St × LineResult :=
         | some ans =>
           if !apiOnly then bad else
           let order := match field impl "q" with | some q => parseList 'r' q | none => []
-          let (σ', obs) := runCall σ (.restart order) .restart ans crashAt torn []
+          let (σ', obs) := runCall nm σ (.restart order) .restart ans crashAt torn []
           finishLine σ' obs [] []
         | none => bad
       | ["start", s, i, a] =>
         match parseTagged 's' s, parseTagged 'i' i, parseAns a with
         | some s, some i, some ans =>
-          if !okStopInj "start" s injs then bad else
-          let (σ', obs) := runCall σ (.start s i) .plain ans crashAt torn injs
+          if !okStopInj "start" (nm.toM s) injs then bad else
+          let (σ', obs) := runCall nm σ (.start (nm.toM s) i) .plain ans crashAt torn injs
           let called := !(impl.startsWith "exists") && !(impl.startsWith "dead")
           finishLine σ' obs (if called then [.startCalled s i] else [])
             (if impl.startsWith "ok" then [.startReturned s] else [])
@@ -464,22 +532,22 @@ def step (st : St) (toks0 : List String) (impl : String) : St × LineResult :=
       | ["interim", s, a] =>
         match parseTagged 's' s, parseAns a with
         | some s, some ans =>
-          if !okStopInj "interim" s injs then bad else
-          let (σ', obs) := runInterim σ s ans crashAt torn injs
+          if !okStopInj "interim" (nm.toM s) injs then bad else
+          let (σ', obs) := runInterim nm σ (nm.toM s) ans crashAt torn injs
           finishLine σ' obs [] []
         | _, _ => bad
       | ["stop", s, c, a] =>
         match parseTagged 's' s, c.toNat?, parseAns a with
         | some s, some c, some ans =>
-          if !okStopInj "stop" s injs then bad else
-          let (σ', obs) := runCall σ (.stop s c) .plain ans crashAt torn injs
+          if !okStopInj "stop" (nm.toM s) injs then bad else
+          let (σ', obs) := runCall nm σ (.stop (nm.toM s) c) .plain ans crashAt torn injs
           finishLine σ' obs [] []
         | _, _, _ => bad
       | ["deq", a] =>
         match parseAns a with
         | some ans =>
           if !apiOnly ∨ torn then bad else
-          let (σ', obs) := runProc σ .deq ans crashAt
+          let (σ', obs) := runProc nm σ .deq ans crashAt
           finishLine σ' obs [] []
         | none => bad
       | ["retry", a] =>
@@ -487,15 +555,15 @@ def step (st : St) (toks0 : List String) (impl : String) : St × LineResult :=
         | some ans =>
           if !apiOnly ∨ torn then bad else
           let order := match field impl "ord" with | some q => parseList 'r' q | none => []
-          let (σ', obs) := runProc σ (.retry order) ans crashAt
+          let (σ', obs) := runProc nm σ (.retry order) ans crashAt
           finishLine σ' obs [] []
         | none => bad
       | ["shutdown", a] =>
         match parseAns a with
         | some ans =>
-          let order := match field impl "ord" with | some q => parseList 's' q | none => []
+          let order := match field impl "ord" with | some q => (parseList 's' q).map nm.toM | none => []
           if !okStopInj "shutdown" 0 injs then bad else
-          let (σ', obs) := runCall σ (.shutdown order) .drain ans crashAt torn injs
+          let (σ', obs) := runCall nm σ (.shutdown order) .drain ans crashAt torn injs
           finishLine σ' obs [] []
         | none => bad
       | _ => bad
